@@ -184,6 +184,30 @@ def run(chk):
         try:
             g = patient(layout.interpret, Tree(node), m)
             if rng.random() < .3:
+                # the same graph READ FROM ITS TEXT through one of the public entry points (all take the model):
+                # the diagnostics are about decoded graphs, whichever call decoded them
+                from penman.codec import PENMANCodec
+                text = penman.format(Tree(node))
+                how = rng.choice(['decode', 'loads', 'iterdecode', 'codec.iterdecode', 'codec.decode'])
+                try:
+                    g2 = patient({'decode': lambda: penman.decode(text, model=m),
+                                  'loads': lambda: penman.loads(text, model=m)[0],
+                                  'iterdecode': lambda: next(iter(penman.iterdecode(text, model=m))),
+                                  'codec.iterdecode': lambda: next(iter(PENMANCodec(model=m).iterdecode(text))),
+                                  'codec.decode': lambda: PENMANCodec(model=m).decode(text)}[how])
+                except Timeout:
+                    raise
+                except Exception as e:      # noqa
+                    g2 = None
+                    chk.stat('entry-point-not-readable:' + type(e).__name__)
+                if g2 is not None:
+                    if common.canon_graph(g2) != common.canon_graph(g):
+                        chk.fail('entry-point', f'penman.{how}(text, model) reads a different graph than interpret(tree, model): '
+                                 f'{g2.triples!r} vs {g.triples!r}', dict(case, text=text, entry=how))
+                    else:
+                        g = g2
+                        chk.stat('read-through-' + how)
+            if rng.random() < .3:
                 # history: calls documented as NOT changing their argument run first on the same graph object
                 try:
                     patient(layout.reconfigure, g, None, m)
